@@ -73,6 +73,123 @@ def mutate(rng, text):
     return ''.join(chars)
 
 
+def deprecated_tag_clauses(ck, rng, parser, message, n):
+    """the deprecated tag-style annotations ("Transfer: full", "Attributes: (k v)") are still accepted with a deprecation warning;
+    every diagnostic about them names the file and the line of the tag (quoting and caret are not judged for this form), and a
+    malformed Attributes: tag is ignored as a whole"""
+    for i in range(n):
+        ident_anns = rng.choice(['', '', ' (skip)'])
+        tag = rng.choice(['Transfer: bogus', 'Transfer: full extra', 'Attributes: (a b c) (d e)', 'Attributes: (d e) (a b c)', 'Attributes: (k v)',
+                          'Transfer: none', 'Attributes: (a) (b c)', 'Scope: everywhere'])
+        filler = [' * @p: a parameter', ' *', ' * A description.', ' *'][:rng.choice([0, 2, 4])]
+        lines = ['/**', ' * foo_fn_%d:%s' % (i, ident_anns)] + filler + ([' *'] if not filler else []) + [' * ' + tag, ' */']
+        text = '\n'.join(lines)
+        start = rng.choice([1, 40, 7000])
+        tag_line = start + len(lines) - 2
+        logger, out = fresh_logger(message)
+        case = dict(text=text, first_line=start, tag=tag)
+        ck.count_case(dict(tag=tag, ident=ident_anns, filler=len(filler)), kind='deprecated-tag')
+        try:
+            blk = parser.parse_comment_block(text, '/src/dir/foo.c', start)
+        except BaseException as e:      # noqa
+            ck.failing_input('parse_comment_block raises %s on a deprecated tag-style annotation' % type(e).__name__, case, detail=repr(e))
+            continue
+        log = out.getvalue()
+        diags = parse_log(log)
+        first_lines = [l for l in log.split('\n') if re.search(r': (Warning|Error|Fatal): ', l)]
+        if len(first_lines) != len(diags):
+            ck.failing_input('a diagnostic about a deprecated tag-style annotation names neither file nor line', case,
+                             detail=[l for l in first_lines if not DIAG.match(l)][:3])
+        for d in diags:
+            if d['line'] not in (tag_line, start + 1):
+                ck.failing_input('a diagnostic about a deprecated tag-style annotation names line %d; the tag stands on line %d' % (d['line'], tag_line),
+                                 case, detail=d)
+        if 'malformed "Attributes:" tag will be ignored' in log and blk is not None and 'attributes' in blk.annotations:
+            ck.failing_input('a malformed Attributes: tag is reported as ignored but partly applied', case,
+                             detail=dict(annotations=c10.norm_anns(blk.annotations)))
+        if logger.get_warning_count() != len(first_lines):
+            ck.failing_input('the warning count differs from the number of diagnostics written', case,
+                             detail=dict(written=len(first_lines), counted=logger.get_warning_count()))
+
+
+def scanner_main_clauses(ck, rng, tier):
+    """(3) warnings-as-errors through the real scanner_main: with --warn-error the run fails exactly when something was diagnosed,
+    whatever the verbosity options; without it a diagnosed comment never fails the run.  Only the C lexer is replaced (a
+    SourceScanner that hands out one comment block and one constant)."""
+    import contextlib
+    import shutil
+    import tempfile
+    import scanner  # noqa: installs the stub lexer module
+    from common import ROOT
+    from giscanner import message, scannermain
+    from giscanner.sourcescanner import CSYMBOL_TYPE_CONST, SourceSymbol
+    tmp = tempfile.mkdtemp(prefix='giv11m', dir=os.path.join(ROOT, 'build'))
+    header = os.path.join(tmp, 'demo.h')
+    open(header, 'w').write('\n')
+
+    class Raw(object):
+        type = CSYMBOL_TYPE_CONST
+        ident = 'DEMO_ANSWER'
+        base_type = None
+        const_int = None
+        const_double = None
+        const_boolean = None
+        const_string = 'forty-two'
+        source_filename = header
+        line = 7
+        private = False
+
+    def fake(comment):
+        class Fake(object):
+            def set_compiler(self, c): pass
+            def set_cpp_options(self, *a, **k): pass
+            def parse_files(self, f): pass
+            def parse_macros(self, f): pass
+            def get_errors(self): return []
+            def get_symbols(self): return [SourceSymbol(None, Raw())]
+            def get_comments(self): return [(comment, header, 1)]
+        return Fake
+    saved = getattr(scannermain, 'SourceScanner', None)
+    comments = [('nothing to diagnose', '/**\n * DEMO_ANSWER:\n *\n * The answer.\n */'),
+                ('an error-level diagnostic', '/**\n * DEMO_ANSWER: (skip\n *\n * The answer.\n */'),
+                ('a warning-level diagnostic', '/**\n * DEMO_ANSWER: (frobnicate)\n *\n * The answer.\n */'),
+                ('a warning-level diagnostic', '/**\n * DEMO_ANSWER:\n * @nope: no such parameter (in)\n *\n * The answer.\n *\n * Returns: (transfer everything): x\n */')]
+    try:
+        for what, comment in comments:
+            for verbosity in ([], ['--warn-all'], ['--quiet'], ['--quiet', '--warn-all']):
+                for warn_error in (True, False):
+                    message.MessageLogger._instance = None
+                    scannermain.SourceScanner = fake(comment)
+                    args = ['g-ir-scanner', '--namespace=Demo', '--nsversion=1.0', '--header-only', '--output=' + os.path.join(tmp, 'Demo-1.0.gir')] \
+                        + verbosity + (['--warn-error'] if warn_error else []) + [header]
+                    buf = io.StringIO()
+                    failed = False
+                    crash = None
+                    with contextlib.redirect_stdout(buf), contextlib.redirect_stderr(buf):
+                        try:
+                            failed = bool(scannermain.scanner_main(args))
+                        except SystemExit as e:
+                            failed = e.code not in (None, 0)
+                        except Exception as e:      # noqa
+                            crash = repr(e)
+                    count = message.MessageLogger.get().get_warning_count()
+                    case = dict(comment=comment, options=verbosity + (['--warn-error'] if warn_error else []))
+                    ck.count_case(case, kind='scanner_main:%s' % what.split(' ')[1])
+                    if crash:
+                        ck.failing_input('scanner_main raises on a comment block', case, detail=crash)
+                        continue
+                    if what != 'nothing to diagnose' and count < 1:
+                        ck.failing_input('a diagnostic is not counted (%s)' % what, case, detail=dict(counted=count, output=buf.getvalue()[-300:]))
+                    if failed != (warn_error and count > 0):
+                        ck.failing_input('warnings-as-errors does not fail the run exactly when something was diagnosed', case,
+                                         detail=dict(counted=count, run_failed=failed, output=buf.getvalue()[-300:]))
+    finally:
+        if saved is not None:
+            scannermain.SourceScanner = saved
+        message.MessageLogger._instance = None
+        shutil.rmtree(tmp, ignore_errors=True)
+
+
 def main(tier, seed):
     ck = Check('C11', tier, seed)
     ck.assumptions += ['diagnostics are read from the text the MessageLogger writes; file names are compared by base name',
@@ -177,6 +294,12 @@ def main(tier, seed):
             lines[target] = ' * @%s: fine' % b['params'][k]['name']
             lines[-1] = rng.choice([' * trailing text */', ' */ int x;', ' * more */ call();'])
             expect_line = len(lines) - 1
+        if first_line_anns is None and kind != 'end-token' and rng.random() < 0.2:
+            # the offending line is written without the leading asterisk (GTK-Doc accepts that), after lines that have one;
+            # the block itself may be indented
+            pad = rng.choice(['', '     '])
+            lines = [pad + l for l in lines]
+            lines[expect_line] = rng.choice(['', ' ', '   ']) + lines[expect_line].lstrip()[1:].lstrip()
         text = '\n'.join(lines)
         target_line_text = lines[expect_line]
         start = rng.choice([1, 17, 4000])
@@ -232,6 +355,8 @@ def main(tier, seed):
         if len(diags) != logger.get_warning_count():
             ck.failing_input('the warning count differs from the number of diagnostics written', case,
                              detail=dict(written=len(diags), counted=logger.get_warning_count()))
+    deprecated_tag_clauses(ck, rng, parser, message, 40 if tier == 'quick' else 600)
+    scanner_main_clauses(ck, rng, tier)
     return ck.finish(rule='(1) a damaged comment (character insertions/deletions incl. NUL, U+2028 and non-ASCII, shuffled lines, truncation, '
                           'other line endings, trailing code, soup) between two well-formed ones: no exception, both neighbours kept, every '
                           'diagnostic inside its comment; (2) a well-formed block with one of 10 annotation defects on a known parameter line, '
